@@ -61,7 +61,7 @@ pub fn spec_for(prop: &str) -> Option<CheckSpec> {
             rule: "one case = (byte string, switches, reader flavour, source kind, chunking, faults, end-of-stream point); distinct = distinct Plan hash x end-of-stream point; non-trivial = the run produced at least one event or error before Eof",
             assumptions: vec![
                 "panic attribution: a panic whose location is outside /verif/sim is charged to the library",
-                "budgets: reads to Eof <= 2*len+4; source calls <= 12*len + faults + 128; wall-clock watchdog 120 s per run",
+                "budgets: reads to Eof <= 2*len+4; source calls <= 12*len + faults + 128; wall-clock watchdog 30 s + 1 s per 5 KB per plan",
                 "after an injected I/O error only no-panic/termination are monitored (no property says more)",
                 "built with debug-assertions and overflow-checks on, so the library's own debug_assert!s count as panics",
             ],
@@ -138,7 +138,7 @@ pub fn spec_for(prop: &str) -> Option<CheckSpec> {
             rule: "same cases as C14 (both entry points are executed for every case); a panic from library code or an exceeded source-call budget / wall-clock watchdog is a violation; distinct = Plan hash; non-trivial = the document is not accepted by from_str (mutated / wrong shape / truncated) or is cut inside markup",
             assumptions: vec![
                 "panic attribution: a panic whose location is outside /verif/sim is charged to the library",
-                "bounded time = source calls <= 4*(12*len+128), sequence elements produced <= 4*len+64 (counted by a wrapper type around every sequence element of the family), and a 20 s wall-clock watchdog per case",
+                "bounded time = source calls <= 4*(12*len+128), sequence elements produced <= 4*len+64 (counted by a wrapper type around every sequence element of the family), and a wall-clock watchdog (30 s + 1 s per 5 KB of document) per case",
                 "inputs are sampled, not enumerated",
             ],
             real: vec!["quick_xml::de::{from_str, from_reader}", "std::io::BufReader", "serde derive-generated visitors of the type family"],
